@@ -201,6 +201,20 @@ struct LmOut {
     uphill: usize,
 }
 
+/// the linear solve of the loop: curve_fit tries LU only (first solve), curve_fit_jac falls back to full-pivot LU and QR
+fn solve_chain(m: &DMatrix<f64>, b: &mut DVector<f64>, fallback: bool) -> bool {
+    if m.clone().lu().solve_mut(b) {
+        return true;
+    }
+    if !fallback {
+        return false;
+    }
+    if m.clone().full_piv_lu().solve_mut(b) {
+        return true;
+    }
+    m.clone().qr().solve_mut(b)
+}
+
 /// Err(None) = budget exhausted, Err(Some(msg)) = library-style error
 fn lm_model(f: &Budgeted, xs: &[f64], ys_in: &[f64], initial: &[f64], tol: f64, mut damping: f64, h: f64, mult: f64, mode: JacMode) -> Result<LmOut, Option<String>> {
     let mut uphill = 0usize;
@@ -234,8 +248,7 @@ fn lm_model(f: &Budgeted, xs: &[f64], ys_in: &[f64], initial: &[f64], tol: f64, 
             for i in 0..multiplied.ncols() {
                 multiplied[(i, i)] *= 1.0 + damping_tmp;
             }
-            let lu = multiplied.clone().lu();
-            if !lu.solve_mut(&mut b) {
+            if !solve_chain(&multiplied, &mut b, matches!(mode, JacMode::Analytic(_))) {
                 return Err(Some("curve_fit: unable to solve linear equation".into()));
             }
             lp += &b;
@@ -268,8 +281,7 @@ fn lm_model(f: &Budgeted, xs: &[f64], ys_in: &[f64], initial: &[f64], tol: f64, 
         for i in 0..multiplied.ncols() {
             multiplied[(i, i)] *= 1.0 + damping;
         }
-        let lu = multiplied.clone().lu();
-        if !lu.solve_mut(&mut b) {
+        if !solve_chain(&multiplied, &mut b, matches!(mode, JacMode::Analytic(_))) {
             return Err(Some("curve_fit: unable to solve linear equation".into()));
         }
         let new_params = &params + &b;
